@@ -123,6 +123,51 @@ Example c17_dns_drain_example :
   snd (s_reads code_shape c 2 4) = [RBytes [1; 2]%N; RBytes [3; 4]%N; RBytes [5]%N; REof].
 Proof. vm_compute. repeat split. Qed.
 
+
+(* -- the out-queues: a Write waits in waitEmptyQueue for the acknowledgement of what is queued; Close of the out-queue at the three places
+   where the in-queue is closed (the repair of the parked writer) *)
+
+(* Every chunk ever queued on an end is acknowledged or still queued, in order; nothing disappears from an out-queue. *)
+Theorem c17_dns_out_queue_accounting : forall c, reach c ->
+  o_sent (c_out c) = (o_ackd (c_out c) ++ o_q (c_out c))%list /\ o_sent (s_out c) = (o_ackd (s_out c) ++ o_q (s_out c))%list.
+Proof. exact conn_out_accounting. Qed.
+
+(* No silent loss: a Write on the server-side connection reports success (n, nil) only when the out-queue is empty again, i.e. every chunk
+   ever queued there has been acknowledged, and n is the length of what was written; it reports os.ErrClosed only when the session is no
+   longer live. The same for OutQueue.Write on the client's queue. *)
+Theorem c17_dns_write_success_means_acknowledged_server : forall c d n, reach c -> snd (s_write c d) = WDone n ->
+  n = List.length d /\ o_q (s_out (fst (s_write c d))) = [] /\ o_sent (s_out (fst (s_write c d))) = o_ackd (s_out (fst (s_write c d))).
+Proof. exact s_write_done. Qed.
+Theorem c17_dns_write_closed_means_session_over : forall c d n, reach c -> snd (s_write c d) = WClosed n -> live (s_slot c) = false.
+Proof. exact s_write_closed_outcome. Qed.
+Theorem c17_dns_write_success_means_acknowledged_client : forall c d sent n, reach c -> snd (o_write (c_out c) d sent) = WDone n ->
+  n = List.length d /\ o_q (fst (o_write (c_out c) d sent)) = [] /\ o_sent (fst (o_write (c_out c) d sent)) = o_ackd (fst (o_write (c_out c) d sent)).
+Proof. exact c_out_write_done. Qed.
+(* ... and for the parked writer that an acknowledgement or a Close runs on (any out-queue satisfying the invariant, which every out-queue of
+   a reachable state does: c17_dns_out_queues_invariant): success only with everything acknowledged. *)
+Theorem c17_dns_released_writer_success_means_acknowledged : forall o m, oinv o ->
+  (snd (o_ack o) = Some (WDone m) -> o_q (fst (o_ack o)) = [] /\ o_sent (fst (o_ack o)) = o_ackd (fst (o_ack o))) /\
+  (snd (o_close o) = Some (WDone m) -> o_q (fst (o_close o)) = [] /\ o_sent (fst (o_close o)) = o_ackd (fst (o_close o))).
+Proof. intros o m I. split; [apply o_ack_done, I|apply o_close_done, I]. Qed.
+Theorem c17_dns_out_queues_invariant : forall c, reach c -> oinv (c_out c) /\ oinv (s_out c).
+Proof. intros c R. destruct (reach_out c R) as (A & B & _). auto. Qed.
+
+(* A closed end parks no writer: none is parked on it, and no Write on it parks (nor is turned away as busy). *)
+Theorem c17_dns_closed_parks_no_writer_client : forall c, reach c -> c_comm c = true ->
+  o_parked (c_out c) = None /\ forall d sent b, snd (o_write (c_out c) d sent) <> WBlock b /\ snd (o_write (c_out c) d sent) <> WBusy.
+Proof. exact client_closed_no_writer. Qed.
+Theorem c17_dns_closed_parks_no_writer_server : forall c, reach c -> live (s_slot c) = false ->
+  o_parked (s_out c) = None /\ forall d b, snd (s_write c d) <> WBlock b /\ snd (s_write c d) <> WBusy.
+Proof. exact server_closed_no_writer. Qed.
+
+Example c17_dns_writer_example :
+  let c := fst (run code_shape (init_conn false []) [OSWrite [1; 2; 3]%N]) in
+  o_parked (s_out c) = Some (WFinal 3) /\
+  snd (step code_shape c OSAck) = [OAns None; OWWoke false (WDone 3)] /\
+  snd (step code_shape c OCloseReq) = [OAns None; OWWoke false (WClosed 3)] /\
+  snd (run code_shape c [OExpire; OSWrite [4]%N]) = [ODone; OWWoke false (WClosed 3); OWOut false (WClosed 0)].
+Proof. vm_compute. repeat split. Qed.
+
 (* -- the other shapes, refuted *)
 (* "end-of-stream as soon as the end is closed" (Read without the HasData test), on either end: appended octets are never delivered. *)
 Theorem c17_dns_eof_when_closed_server_refuted :
@@ -169,7 +214,17 @@ Theorem c17_dns_close_source_facts :
   Gen.CloseShape.server_write_refused_cond = "u.closed"%string /\
   Gen.CloseShape.client_closed_is = "dc.Communicator.Closed()"%string /\
   Gen.CloseShape.in_queue_has_data_is = "q.queueHasData"%string /\
-  Gen.CloseShape.client_close_steps = "if !dc.Closed() && dc.Serializer.Upstream.QueryType != nil;dc.in.Close();return dc.Communicator.Close()"%string /\
+  Gen.CloseShape.client_close_steps = "if !dc.Closed() && dc.Serializer.Upstream.QueryType != nil;dc.in.Close();dc.out.Close();return dc.Communicator.Close()"%string /\
+  Gen.CloseShape.client_close_closes_out_queue = true /\ Gen.CloseShape.close_connection_closes_out_queue = true /\
+  Gen.CloseShape.sweep_closes_out_queue = true /\ Gen.CloseShape.out_queue_close_as_modelled = true /\
+  Gen.CloseShape.out_queue_close_steps = "q.queueMutex.Lock();q.closed = true;for;q.queueNotifiers = q.queueNotifiers[0:0];q.queueMutex.Unlock()"%string /\
+  Gen.CloseShape.out_queue_wait_tests = "!q.queueHasData -> nil;q.closed -> os.ErrClosed"%string /\
+  Gen.CloseShape.out_queue_wait_after_wake = "q.closedWithData();(falls through);q.closedWithData()"%string /\
+  Gen.CloseShape.out_queue_closed_with_data = "q.closed && q.queueHasData -> os.ErrClosed"%string /\
+  Gen.CloseShape.out_queue_write_steps = "err = q.waitEmptyQueue();if err != nil;for;q.checkQueueFull();return n, q.waitEmptyQueue()"%string /\
+  Gen.CloseShape.server_write_otherwise = "return u.out.Write(b, u.Serializer.Downstream.FragmentSize)"%string /\
+  Gen.CloseShape.client_write_otherwise = "return dc.out.Write(b, dc.Serializer.Upstream.FragmentSize)"%string /\
+  Gen.CloseShape.out_queue_update_acked_tail = "q.cleanAckedChunks()"%string /\
   Gen.CloseShape.client_close_closes_in_queue = true /\
   Gen.CloseShape.client_close_acknowledges_then_asks = true /\
   Gen.CloseShape.close_connection_closes_in_queue = true /\
@@ -215,3 +270,11 @@ Print Assumptions c17_dns_eof_when_closed_client_refuted.
 Print Assumptions c17_dns_wrapped_errors_refuted.
 Print Assumptions c17_dns_buffer_is_c07_buffer.
 Print Assumptions c17_dns_close_source_facts.
+Print Assumptions c17_dns_out_queue_accounting.
+Print Assumptions c17_dns_write_success_means_acknowledged_server.
+Print Assumptions c17_dns_write_closed_means_session_over.
+Print Assumptions c17_dns_write_success_means_acknowledged_client.
+Print Assumptions c17_dns_released_writer_success_means_acknowledged.
+Print Assumptions c17_dns_out_queues_invariant.
+Print Assumptions c17_dns_closed_parks_no_writer_client.
+Print Assumptions c17_dns_closed_parks_no_writer_server.
